@@ -96,10 +96,13 @@ class DiscreteTimeInterpreter(TimeInterpreter):
         return
 
     def update_sampling_violation_counter(self, duration):
-        # time-stamps are expressed in the default unit, the period in its own unit
-        duration = duration * self.ast.U[self.ast.unit] / self.U[self.sampling_period_unit]
-        tolerance = self.sampling_period * self.sampling_tolerance
-        if duration < self.sampling_period - tolerance or duration > self.sampling_period + tolerance:
+        # time-stamps are expressed in the default unit, the period in its own unit; the period, the tolerance
+        # and the gap are taken as they are written, so that a gap on the closed interval
+        # [P(1-tol), P(1+tol)] is inside whatever the units (0.01 s - 10% is 9 ms, not 9.000000000000001 ms)
+        period = Fraction(str(self.sampling_period)) * self.U[self.sampling_period_unit] / self.ast.U[self.ast.unit]
+        tolerance = period * Fraction(str(self.sampling_tolerance))
+        duration = Fraction(str(duration))
+        if duration < period - tolerance or duration > period + tolerance:
             self.sampling_violation_counter = self.sampling_violation_counter + 1
 
     def check_pastified_bounds(self):
